@@ -99,6 +99,43 @@ static ssize_t ck_write(void* c, const char* b, size_t n)
     return ssize_t(n);
 }
 
+// input that is cut exactly once, at byte offset `cut` (fault-position sweep)
+class split_ibuf : public std::streambuf {
+        const std::string &src;
+        size_t cut;
+        int phase = 0;
+        char buf[8 + 4096];
+    public:
+        split_ibuf(const std::string &s, size_t c) : src(s), cut(c) { setg(buf + 8, buf + 8, buf + 8); }
+    protected:
+        int_type underflow() override {
+            if (gptr() < egptr()) return traits_type::to_int_type(*gptr());
+            size_t from, to;
+            if (phase == 0) { from = 0; to = cut; }
+            else { from = cut + size_t(phase - 1) * 4096; to = std::min(src.size(), from + 4096); }
+            if (from >= src.size() || from >= to) { if (phase == 0) { phase = 1; return underflow(); } return traits_type::eof(); }
+            size_t keep = size_t(gptr() - eback()); if (keep > 8) keep = 8;
+            std::memmove(buf + 8 - keep, gptr() - keep, keep);
+            size_t n = std::min<size_t>(to - from, 4096);
+            std::memcpy(buf + 8, src.data() + from, n);
+            if (phase == 0 && n < cut) cut = n;     // (files longer than the buffer: first piece is the buffer)
+            phase++;
+            setg(buf + 8 - keep, buf + 8, buf + 8 + n);
+            return traits_type::to_int_type(*gptr());
+        }
+};
+struct split_cookie { const std::string* data; size_t pos; size_t cut; };
+static ssize_t sc_read(void* c, char* b, size_t n)
+{
+    split_cookie* s = (split_cookie*) c;
+    if (s->pos >= s->data->size()) return 0;
+    size_t m = std::min(n, s->data->size() - s->pos);
+    if (s->pos < s->cut) m = std::min(m, s->cut - s->pos);     // a short read that ends exactly at the cut
+    std::memcpy(b, s->data->data() + s->pos, m);
+    s->pos += m;
+    return ssize_t(m);
+}
+
 // ----------------------------------------------------------------------
 // io: write some roots of forest F, read them back.
 // a[0] forest, a[1] number of roots, a[2] transport (0 stream, 1 FILE),
@@ -281,6 +318,51 @@ void World::opIO(const Step &s)
             break;
         }
     }
+    // Fault-position sweep (one file in four): read the same file again with
+    // the input cut once at EVERY byte offset (both transports alternate); the
+    // reader must deliver the identical edges whatever the cut.
+    if (!failed() && !created && (s.a[5] % 4 == 0) && disk.size() < 6000) {
+        size_t cuts = 0;
+        for (size_t cut = 1; cut < disk.size() && !failed(); cut++) {
+            try {
+                std::vector<dd_edge> again;
+                if (cut & 1) {
+                    split_ibuf sb(disk, cut);
+                    std::istream is2(&sb);
+                    istream_input in2(is2);
+                    mdd_reader Rd2(in2, T.f);
+                    for (unsigned i = 0; i < nroots; i++) { dd_edge e(T.f); Rd2.readRootEdge(e); again.push_back(e); }
+                } else {
+                    split_cookie sc { &disk, 0, cut };
+                    cookie_io_functions_t fn2 = { sc_read, nullptr, nullptr, nullptr };
+                    FILE* fp2 = fopencookie(&sc, "r", fn2);
+                    {
+                        FILE_input in2(fp2);
+                        mdd_reader Rd2(in2, T.f);
+                        for (unsigned i = 0; i < nroots; i++) { dd_edge e(T.f); Rd2.readRootEdge(e); again.push_back(e); }
+                    }
+                    fclose(fp2);
+                }
+                for (unsigned i = 0; i < nroots; i++) {
+                    if (again[i] != got[i]) {
+                        std::ostringstream o;
+                        o << "root " << i << " differs when the input is cut at byte " << cut << " of " << disk.size()
+                          << " (" << ((cut & 1) ? "iostream" : "FILE*") << ")";
+                        failNow("F1", cur_family, o.str());
+                        break;
+                    }
+                }
+            }
+            catch (MEDDLY::error &e) {
+                std::ostringstream o;
+                o << "reader threw " << e.getName() << " when the input is cut at byte " << cut << " of " << disk.size()
+                  << " (" << ((cut & 1) ? "iostream" : "FILE*") << ")";
+                failNow("O2", cur_family, o.str());
+            }
+            cuts++;
+        }
+        stats.fired["sweep_io_cut_positions"] += long(cuts);
+    }
     got.clear();
     if (created) {
         // reader-created forest: audit, then destroy it
@@ -433,6 +515,43 @@ void World::opMisuse(const Step &s)
                 // KF-C05-4 (probe plans only): a dividend that is 0 where the
                 // divisor is 0 is short-circuited to 0 without any error
                 if (s.a[5] == 999) { F.f->createConstant(rangeval(0L), num); what = "0 divided by a function that is zero at one point"; }
+                // Fault-position sweep (one call in three): the zero of the
+                // divisor is placed at EVERY point of the domain in turn (all
+                // of them up to 64 points, 48 seeded ones beyond): the error
+                // must be raised wherever in the traversal the zero is met.
+                if (s.a[5] != 999 && (s.a[4] % 3 == 0)) {
+                    long swept = 0;
+                    for (long k = 0; k < total && swept < 64; k++) {
+                        const long zz = (total <= 64) ? k : long(R.below(uint64_t(total)));
+                        dd_edge dz(F.f), oz(F.f), rz(F.f);
+                        F.f->createConstant(rangeval(1L), dz);
+                        minterm mz(F.f);
+                        fillMinterm(F, mz, F.spec.rel ? zz / D.N : zz, F.spec.rel ? zz % D.N : 0);
+                        mz.setValue(rangeval(1L));
+                        mz.buildFunction(rangeval(0L), oz);
+                        apply(MINUS, dz, oz, dz);
+                        bool thrown = false;
+                        try { if (s.a[2] & 1) apply(MODULO, num, dz, rz); else apply(DIVIDE, num, dz, rz); }
+                        catch (MEDDLY::error &e) {
+                            thrown = true;
+                            if (e.getCode() != error::DIVIDE_BY_ZERO) {
+                                std::ostringstream o; o << what << " (zero at point " << zz << "): raised " << e.getName() << " instead of DIVIDE_BY_ZERO";
+                                markErrored(f1);
+                                failNow("E1", cur_family, o.str());
+                                return;
+                            }
+                        }
+                        if (!thrown) {
+                            std::ostringstream o; o << what << " (zero at point " << zz << " of " << total << "): no error was raised";
+                            markErrored(f1);
+                            failNow("E1", cur_family, o.str());
+                            return;
+                        }
+                        swept++;
+                        if (total > 64 && swept >= 48) break;
+                    }
+                    stats.fired["sweep_zero_divisor_positions"] += swept;
+                }
                 if (s.a[2] & 1) apply(MODULO, num, dv, r);
                 else            apply(DIVIDE, num, dv, r);
                 break;
